@@ -19,7 +19,13 @@ int main(int argc, char **argv) {
     vr::Runner R;
     R.nworkers = (int) A.geti("workers", 8);
     std::vector<FileSpec> files;
-    for (auto &f : vr::split(A.get("files"), ',')) { auto t = vr::split(f, '@'); files.push_back({t[0], t[1] == "bad", atof(t[2].c_str())}); }
+    std::string fspec = A.get("files");
+    if (!fspec.empty() && fspec[0] == '@') {       // @listfile: one spec per line
+        std::string acc; if (FILE *lf = fopen(fspec.c_str() + 1, "r")) { char buf[4096]; while (fgets(buf, sizeof buf, lf)) { std::string l = buf; while (!l.empty() && (l.back() == '\n' || l.back() == '\r')) l.pop_back(); if (!l.empty()) acc += (acc.empty() ? "" : ",") + l; } fclose(lf); }
+        else { fprintf(stderr, "cannot read %s\n", fspec.c_str() + 1); return 2; }
+        fspec = acc;
+    }
+    for (auto &f : vr::split(fspec, ',')) { auto t = vr::split(f, '@'); files.push_back({t[0], t[1] == "bad", atof(t[2].c_str())}); }
     std::vector<int> Ps; for (auto &s : vr::split(A.get("P", "1,2,3"), ',')) Ps.push_back(atoi(s.c_str()));
     struct Case { int file, P, alg, pc, verbose; };
     std::vector<Case> cases;
